@@ -9,9 +9,25 @@ from contracts.c16_approx import _fixed_output_dimension
 from contracts.c16_derivatives import BASE, F1, F2, FD, Ffun, column, el, idx_ok, ln
 from pyvc import contract as C
 from pyvc.contract import Contract, LoopSpec, register, schema
+from pyvc.plug_c16 import TStepUnion
 from pyvc.values import TBool, TDict, TInt, TList, TNone, TOpt, TReal, TStr, TVal
 
 M_OUT = z3.Int("m_out")
+
+
+def _step_of(c, comp):
+    """The step of input component `comp`: the default step (step=None), the global step, or the entry of the per-component step vector."""
+    st = c.old.step
+    if st is None:
+        return c.old.self._step
+    return st if z3.is_expr(st) else el(st, comp)
+
+
+def _one_step_per_component(c):
+    st = c.old.step
+    if st is None or z3.is_expr(st):
+        return []
+    return [("one-step-per-input-component", ln(st) == ln(c.old.x_vect))]
 
 
 # ============================================================================ BaseGradientApproximator.f_gradient (forward differences)
@@ -29,19 +45,19 @@ class FGradientForwardDifferences(Contract):
     numpy = "precise"
     c16 = True
     fun_output_dim = M_OUT
-    params = {"x_vect": F1, "step": TOpt(TReal), "x_indices": TList(TInt)}
+    params = {"x_vect": F1, "step": TStepUnion(optional=True), "x_indices": TList(TInt)}  # None (default step) | one global step | one step per input component
     returns = F2
     modifies = ("self",)  # self._function_kwargs
 
     def requires(self, c):
         x = c.old.x_vect
-        return idx_ok(c.old.x_indices, ln(x)) + [("at-least-one-variable", ln(x) >= 1), _fixed_output_dimension()]
+        return idx_ok(c.old.x_indices, ln(x)) + [("at-least-one-variable", ln(x) >= 1), _fixed_output_dimension()] + _one_step_per_component(c)
 
     def ensures(self, c):
-        x, idx, st = c.old.x_vect, c.old.x_indices, c.old.step
-        h = z3.If(st.is_none(), c.old.self._step, TOpt(TReal).dt.get(st.term))
+        x, idx = c.old.x_vect, c.old.x_indices
         n = z3.If(idx.n == 0, ln(x), idx.n)
         comp = lambda k: z3.If(idx.n == 0, k, idx.elems[k])  # noqa: E731
+        h = lambda k: _step_of(c, comp(k))  # the step of the component differentiated by perturbation k  # noqa: E731
         P = c.locals["input_perturbations"]
         J = c.result
         i, k = z3.Int("i!fg"), z3.Int("k!fg")
@@ -49,9 +65,9 @@ class FGradientForwardDifferences(Contract):
         return [
             ("shape", z3.And(ln(J, 0) == M_OUT, ln(J, 1) == n)),
             ("perturbed-points", z3.And(ln(P, 0) == ln(x), ln(P, 1) == n, z3.ForAll([i, k], z3.Implies(
-                z3.And(0 <= i, i < ln(x), 0 <= k, k < n), el(P, i, k) == el(x, i) + z3.If(i == comp(k), h, z3.RealVal(0)))))),
+                z3.And(0 <= i, i < ln(x), 0 <= k, k < n), el(P, i, k) == el(x, i) + z3.If(i == comp(k), h(k), z3.RealVal(0)))))),
             ("difference-quotients", z3.ForAll([i, k], z3.Implies(z3.And(0 <= i, i < M_OUT, 0 <= k, k < n),
-                                                                   el(J, i, k) == (F1.els(Ffun(column(P, k)))[i] - F1.els(fx)[i]) / h))),
+                                                                   el(J, i, k) == (F1.els(Ffun(column(P, k)))[i] - F1.els(fx)[i]) / h(k)))),
         ]
 
 
@@ -90,30 +106,30 @@ class FGradientCenteredDifferences(Contract):
     numpy = "precise"
     c16 = True
     fun_output_dim = M_OUT
-    params = {"x_vect": F1, "step": TOpt(TReal), "x_indices": TList(TInt)}
+    params = {"x_vect": F1, "step": TStepUnion(optional=True), "x_indices": TList(TInt)}  # None (default step) | one global step | one step per input component
     returns = F2
     modifies = ("self",)
 
     def requires(self, c):
         x = c.old.x_vect
-        return idx_ok(c.old.x_indices, ln(x)) + [("at-least-one-variable", ln(x) >= 1), _fixed_output_dimension()]
+        return idx_ok(c.old.x_indices, ln(x)) + [("at-least-one-variable", ln(x) >= 1), _fixed_output_dimension()] + _one_step_per_component(c)
 
     def ensures(self, c):
-        x, idx, st = c.old.x_vect, c.old.x_indices, c.old.step
-        h = z3.If(st.is_none(), c.old.self._step, TOpt(TReal).dt.get(st.term))
+        x, idx = c.old.x_vect, c.old.x_indices
         n = z3.If(idx.n == 0, ln(x), idx.n)
         comp = lambda k: z3.If(idx.n == 0, k, idx.elems[k])  # noqa: E731
+        h = lambda k: _step_of(c, comp(k))  # noqa: E731
         P = c.locals["input_perturbations"]
         J = c.result
         i, k, q = z3.Int("i!fg"), z3.Int("k!fg"), z3.Int("q!fg")
         rng = z3.And(0 <= i, i < ln(x), 0 <= k, k < n)
-        bump = z3.If(i == comp(k), h, z3.RealVal(0))
+        bump = z3.If(i == comp(k), h(k), z3.RealVal(0))
         return [
             ("shape", z3.And(ln(J, 0) == M_OUT, ln(J, 1) == n)),
             ("perturbed-points:shape", z3.And(ln(P, 0) == ln(x), ln(P, 1) == 2 * n)),
             ("perturbed-points:forward", z3.ForAll([i, k], z3.Implies(rng, el(P, i, k) == el(x, i) + bump))),
             ("perturbed-points:backward", z3.ForAll([i, q], z3.Implies(z3.And(0 <= i, i < ln(x), n <= q, q < 2 * n),
-                                                                        el(P, i, q) == el(x, i) - z3.If(i == comp(q - n), h, z3.RealVal(0))))),
+                                                                        el(P, i, q) == el(x, i) - z3.If(i == comp(q - n), h(q - n), z3.RealVal(0))))),
             ("centered-quotients", z3.ForAll([i, k], z3.Implies(z3.And(0 <= i, i < M_OUT, 0 <= k, k < n),
                                                                  el(J, i, k) == (F1.els(Ffun(_col(P, k)))[i] - F1.els(Ffun(_col(P, n + k)))[i]) / np_norm(_diff(P, k, n + k))))),
         ]
@@ -488,3 +504,73 @@ class DisciplineComputeJacobian(Contract):
         outs, ins = self._names(c)
         post = approx_jac_post(c, outs, ins, _NoIndices, c.new.self.jac, None)
         return [(label, z3.Implies(_is_approx(c.old.self._linearization_mode), f)) for label, f in post if "selected" not in label and "other-columns" not in label]
+
+
+# ============================================================================ DisciplineJacApprox.check_jacobian (comparison loop, all components)
+from pyvc.plug_c16 import TSel, np_allclose  # noqa: E402
+
+schema(GR + "#c16", {"_data_converter": TObj(CONV, schema_key=CONV + "#c16"), "_defaults": TDict(TStr, TVal)})
+schema(DISC + "#c16", {"io": TObj(IO, schema_key=IO + "#c16"), "cache": TNone, "jac": D2, "name": TStr})
+
+
+def _pair_ok(analytic, oname, dterm, x, thr):
+    """The approximated block dterm[x] of output oname and the analytic block have the same shape and are close (numpy.allclose, atol = rtol = thr)."""
+    A = D1.acc(1)(analytic.get(oname))[x]
+    B = D1.acc(1)(dterm)[x]
+    return z3.And(F2.dim(A, 0) == F2.dim(B, 0), F2.dim(A, 1) == F2.dim(B, 1), np_allclose(A, B, thr, thr))
+
+
+def _row_ok(analytic, oname, dterm, thr):
+    x = z3.Const("x!ro", TStr.sort())
+    return z3.ForAll([x], z3.Implies(D1.acc(0)(dterm)[x], _pair_ok(analytic, oname, dterm, x, thr)), patterns=[D1.acc(0)(dterm)[x]])
+
+
+def _cj_outer(c, k):
+    an, ap, thr = c.locals["analytic_jacobian"], c.locals["approximated_jacobian"], c.old.threshold
+    p = z3.Int("p!co")
+    key = c.seq.keys[p]
+    return [("succeed-iff-every-compared-row-is-close", c.locals["succeed"] == z3.ForAll([p], z3.Implies(z3.And(0 <= p, p < k), _row_ok(an, key, ap.get(key), thr)), patterns=[c.seq.keys[p]]))]
+
+
+def _cj_inner(c, m):
+    an, thr = c.locals["analytic_jacobian"], c.old.threshold
+    oj = c.locals["output_jacobian"]
+    dterm = D1.dt.mk(oj.member, oj.vals, oj.n)
+    q = z3.Int("q!ci")
+    return [("succeed-iff-before-and-every-compared-block-is-close",
+             c.locals["succeed"] == z3.And(c.pre_locals["succeed"], z3.ForAll([q], z3.Implies(z3.And(0 <= q, q < m), _pair_ok(an, c.locals["output_name"], dterm, c.seq.keys[q], thr)),
+                                                                            patterns=[c.seq.keys[q]])))]
+
+
+@register
+class CheckJacobianAllComponents(Contract):
+    """Without `indices`, reference file and plot: check_jacobian approximates the Jacobian (compute_approx_jac) and succeeds iff, for every
+    (output, input) block of the approximated Jacobian, the analytic block (the given one, or discipline.jac when none is given) has the same
+    shape and is within `threshold` of it in numpy.allclose's norm (atol = rtol = threshold)."""
+
+    targets = (DJA + ".check_jacobian",)
+    prop = ("C16",)
+    numpy = "precise"
+    c16 = True
+    params = {"output_names": NAMES, "input_names": NAMES, "analytic_jacobian": D2, "threshold": TReal, "indices": TDict(TStr, TSel)}
+    returns = TBool
+    modifies = ("self",)
+    raises = {"ValueError": lambda c: c.old.self.auto_steps.n >= 1,  # inconsistent automatic steps (compute_approx_jac)
+              "KeyError": None}  # an approximated block without analytic counterpart
+    raises_exact = False
+    loops = {0: LoopSpec(anchor="approximated_jacobian.items()", inv=_cj_outer, modifies=()),
+             1: LoopSpec(anchor="output_jacobian.items()", inv=_cj_inner, modifies=())}
+
+    def axioms(self, c):
+        return _approx_axioms(c)
+
+    def requires(self, c):
+        outs, ins = c.old.output_names, c.old.input_names
+        return [_distinct(outs, "output-names-are-distinct"), _distinct(ins, "input-names-are-distinct"), ("all-components", c.old.indices.n == 0)]
+
+    def ensures(self, c):
+        an, ap, thr = c.locals["analytic_jacobian"], c.locals["approximated_jacobian"], c.old.threshold
+        o = z3.Const("o!cj", TStr.sort())
+        post = approx_jac_post(c, c.old.output_names, c.old.input_names, _NoIndices, ap, None)
+        return [("succeeds-iff-every-block-is-close", c.result == z3.ForAll([o], z3.Implies(ap.has(o), _row_ok(an, o, ap.get(o), thr)), patterns=[ap.has(o)]))] + \
+               [("approximated:" + label, f) for label, f in post if label.startswith("blocks")]
